@@ -16,7 +16,7 @@ import numpy as np
 
 from ..models import guppi
 from ..models import voltage as mv
-from ..core import InjectedCallbackError
+from ..core import InjectedCallbackError, InjectedInterrupt
 
 WINDOWS = ["hamming", "hann", "boxcar", "blackman"]
 
@@ -373,9 +373,19 @@ def do_record(ctx, backend, stem, op, header=None, use_default_header=False):
         elif k == "source" and log is not None:
             log.count = 0
             log.fail_at = fault["at"]
+    tracer = None
+    if fault and fault["kind"] == "interrupt":
+        # KeyboardInterrupt / cancellation at an arbitrary line of the recording loop
+        tracer = seams.interrupt_at(["backend.py:collect_data_block", "backend.py:_make_header"], fault["at"])
     try:
-        backend.record(stem, **kwargs)
+        try:
+            backend.record(stem, **kwargs)
+        finally:
+            if tracer is not None:
+                seams.stop_trace()
         status, exc = "ok", None
+    except InjectedInterrupt as e:
+        status, exc = "fault", e
     except (OSError, InjectedCallbackError) as e:
         injected = isinstance(e, InjectedCallbackError) or "injected" in str(e)
         status, exc = ("fault" if injected else "error"), e
@@ -383,7 +393,7 @@ def do_record(ctx, backend, stem, op, header=None, use_default_header=False):
         status, exc = "error", e
     finally:
         planned_unfired = (seams.write_fault is not None) or (seams.open_fault is not None) or (
-            log is not None and log.fail_at is not None)
+            log is not None and log.fail_at is not None) or (tracer is not None and not tracer.fired)
         seams.write_fault = None
         seams.open_fault = None
         if log is not None:
